@@ -25,7 +25,7 @@ ASSUMPTIONS = [
     "findunique values are strings (sorted() of mixed types is outside the statement)",
 ]
 TIERS = {
-    "quick": {"update": 8000, "find": 8000, "budget_s": 100},
+    "quick": {"update": 14000, "find": 14000, "budget_s": 100},
     "thorough": {"update": 300000, "find": 300000, "budget_s": 1500},
 }
 PARTS = ["search"]
